@@ -311,6 +311,18 @@ func runC04(c *Case) {
 				break
 			}
 		}
+		if c.Res.Status != "violated" && kind != "V" {
+			// a version object that existed before the subject still exists somewhere (C11 relies on it)
+			for _, wh := range []string{"current", "merged"} {
+				for _, n := range walk.VersionNames(pre, base, wh) {
+					if _, _, ok := walk.FindVersion(frozen, base, n); !ok {
+						fail("version-object-lost", fmt.Sprintf("crash after mutating request %d of %d: version %s existed under root/%s before and is now neither under root/current nor root/merged", k, K, n, wh))
+						break
+					}
+					c.Count("version_objects_tracked", 1)
+				}
+			}
+		}
 		if c.Res.Status != "violated" {
 			for _, n := range walk.VersionNames(frozen, base, "current") {
 				v := walk.Walk(frozen, base, n)
